@@ -376,22 +376,25 @@ Lemma life_run_snoc s ops o :
   fst (life_run s (ops ++ [o])) = fst (life_step (fst (life_run s ops)) o).
 Proof. rewrite life_run_app. cbn [fst life_run]. destruct (life_step _ o). reflexivity. Qed.
 
-Definition life_inv (s : life) : Prop := 0 <= refcnt s /\ goroutine s = (0 <? refcnt s).
+Definition life_inv (s : life) : Prop :=
+  0 <= refcnt s /\ goroutine s = (0 <? refcnt s) /\ (0 < refcnt s -> ticker_live s = true).
 
 Lemma life_step_inv s o : life_inv s -> life_inv (fst (life_step s o)).
 Proof.
-  unfold life_inv. intros [H G]. destruct o; cbn [life_step].
-  - destruct (refcnt s + 1 =? 1) eqn:E; cbn [fst refcnt goroutine]; split; try lia;
-      try (rewrite G; lia).
-  - destruct (refcnt s =? 0) eqn:E0; cbn [fst]; [split; assumption|].
-    destruct (refcnt s =? 1) eqn:E1; cbn [fst refcnt goroutine]; split; try lia;
-      try (rewrite G; lia).
+  unfold life_inv. intros (H & G & T). destruct o; cbn [life_step].
+  - destruct (refcnt s + 1 =? 1) eqn:E; cbn [fst refcnt goroutine ticker_live].
+    + repeat split; try lia.
+    + split; [lia|]. split; [rewrite G; lia|]. intros _. apply T. lia.
+  - destruct (refcnt s =? 0) eqn:E0; cbn [fst]; [repeat split; assumption|].
+    destruct (refcnt s =? 1) eqn:E1; cbn [fst refcnt goroutine ticker_live].
+    + repeat split; try lia.
+    + split; [lia|]. split; [rewrite G; lia|]. intros _. apply T. lia.
 Qed.
 
 Lemma life_run_inv ops : life_inv (fst (life_run life0 ops)).
 Proof.
   induction ops as [|o ops IH] using rev_ind.
-  - cbn. unfold life_inv. cbn. split; [lia|reflexivity].
+  - cbn. unfold life_inv. cbn. repeat split; try lia.
   - rewrite life_run_snoc. apply life_step_inv. exact IH.
 Qed.
 
@@ -400,7 +403,7 @@ Lemma checker_lifetime_l ops :
   0 <= refcnt s /\ goroutine s = (0 <? refcnt s) /\
   (checking s = true -> 0 < refcnt s) /\ (refcnt s = 0 -> checking s = false).
 Proof.
-  cbn zeta. destruct (life_run_inv ops) as [H G]. unfold checking. rewrite G.
+  cbn zeta. destruct (life_run_inv ops) as (H & G & _). unfold checking. rewrite G.
   repeat split; try assumption.
   - intros C. apply andb_true_iff in C. lia.
   - intros E. rewrite E. reflexivity.
@@ -443,76 +446,11 @@ Lemma refcount_balance_l ops :
   refcnt (fst (life_run life0 ops)) = starts ops - ok_shutdowns ops (snd (life_run life0 ops)).
 Proof. rewrite refcount_balance_gen. cbn. lia. Qed.
 
-(* no restart: every Start happens while the limiter has users, or before any Start at all *)
-Definition no_restart (ops : list lop) : Prop :=
-  forall pre post, ops = pre ++ LStart :: post ->
-    0 < refcnt (fst (life_run life0 pre)) \/ starts pre = 0.
-
-Lemma no_starts_life0 ops : starts ops = 0 -> fst (life_run life0 ops) = life0.
-Proof.
-  induction ops as [|o ops IH] using rev_ind; [reflexivity|].
-  intros S. assert (SA : forall a b, starts (a ++ b) = starts a + starts b).
-  { induction a as [|x a IHa]; intros b; [reflexivity|]. destruct x; cbn [app starts]; rewrite IHa; lia. }
-  rewrite SA in S.
-  assert (NN : forall a, 0 <= starts a).
-  { induction a as [|x a IHa]; [cbn; lia|]. destruct x; cbn [starts]; lia. }
-  pose proof (NN ops). pose proof (NN [o]).
-  rewrite life_run_snoc, IH by lia.
-  destruct o; [cbn in S; lia|reflexivity].
-Qed.
-
-Lemma no_restart_prefix ops o : no_restart (ops ++ [o]) -> no_restart ops.
-Proof.
-  intros H pre post E. apply (H pre (post ++ [o])). rewrite E, <- app_assoc. reflexivity.
-Qed.
-
-Lemma ticker_live_no_restart ops : no_restart ops ->
-  let s := fst (life_run life0 ops) in ticker_live s = true \/ refcnt s = 0.
-Proof.
-  induction ops as [|o ops IH] using rev_ind; intros NR; cbn zeta; [left; reflexivity|].
-  specialize (IH (no_restart_prefix _ _ NR)). cbn zeta in IH.
-  rewrite life_run_snoc.
-  destruct (life_run_inv ops) as [H0 _].
-  destruct o; cbn [life_step].
-  - assert (T : ticker_live (fst (life_run life0 ops)) = true).
-    { destruct (NR ops [] eq_refl) as [P|Z0].
-      - destruct IH as [IH|IH]; [exact IH|lia].
-      - rewrite (no_starts_life0 _ Z0). reflexivity. }
-    destruct (refcnt _ + 1 =? 1); cbn [fst ticker_live]; left; exact T.
-  - destruct (refcnt (fst (life_run life0 ops)) =? 0) eqn:E0; cbn [fst]; [exact IH|].
-    destruct (refcnt (fst (life_run life0 ops)) =? 1) eqn:E1; cbn [fst ticker_live refcnt].
-    + right. lia.
-    + left. destruct IH as [IH|IH]; [exact IH|lia].
-Qed.
-
-Lemma checker_runs_while_used_l ops : no_restart ops ->
+(* the checker runs exactly while the limiter has users — EVERY history, restarts included *)
+Lemma checker_runs_while_used_l ops :
   let s := fst (life_run life0 ops) in checking s = (0 <? refcnt s).
 Proof.
-  intros NR. cbn zeta. pose proof (ticker_live_no_restart ops NR) as T. cbn zeta in T.
-  destruct (life_run_inv ops) as [H G]. unfold checking. rewrite G.
-  destruct T as [T|T]; [rewrite T; apply andb_true_r|rewrite T; reflexivity].
+  cbn zeta. destruct (life_run_inv ops) as (H & G & T). unfold checking. rewrite G.
+  destruct (0 <? refcnt (fst (life_run life0 ops))) eqn:E; [|reflexivity].
+  rewrite T by lia. reflexivity.
 Qed.
-
-(* n users start (in any order relative to each other — they are indistinguishable), then shut down *)
-Lemma repeat_no_restart n m : no_restart (repeat LStart n ++ repeat LShutdown m).
-Proof.
-  intros pre post E.
-  assert (P : exists k, pre = repeat LStart k).
-  { revert pre post E. induction n as [|n IH]; intros pre post E; cbn [repeat app] in E.
-    - exfalso. assert (I : In LStart (repeat LShutdown m)) by (rewrite E; apply in_or_app; right; left; reflexivity).
-      apply repeat_spec in I. discriminate.
-    - destruct pre as [|x pre]; [exists 0%nat; reflexivity|].
-      cbn [app] in E. injection E as <- E. destruct (IH _ _ E) as [k ->]. exists (S k). reflexivity. }
-  destruct P as [k ->]. destruct k as [|k]; [right; reflexivity|left].
-  assert (R : forall j s, refcnt (fst (life_run s (repeat LStart j))) = refcnt s + Z.of_nat j).
-  { induction j as [|j IHj]; intros s; [cbn; lia|].
-    cbn [repeat life_run]. destruct (life_step s LStart) as [s1 e] eqn:ES.
-    specialize (IHj s1). destruct (life_run s1 (repeat LStart j)). cbn [fst] in *. rewrite IHj.
-    cbn [life_step] in ES. destruct (refcnt s + 1 =? 1); injection ES as <- _; cbn [refcnt]; lia. }
-  rewrite R. cbn. lia.
-Qed.
-
-Lemma restart_refuted_l :
-  exists ops, let s := fst (life_run life0 ops) in
-              0 < refcnt s /\ goroutine s = true /\ checking s = false /\ snd (life_run life0 ops) = [false; false; false].
-Proof. exists [LStart; LShutdown; LStart]. vm_compute. repeat split; reflexivity. Qed.
